@@ -169,13 +169,15 @@ def _angle(rng):
     return [v, unit]
 
 
-def rand_experiment(rng, run_id: int, indirect: bool):
+def rand_experiment(rng, run_id: int, indirect: bool, per_detector_en: bool = False):
     eunit = rng.choice(['meV', 'meV', 'eV', 'ueV'])
     n_en = rng.choice([1, 2, 3, 7])
     en = sorted(rng.choice([float(rng.randrange(-50, 50)), rng.uniform(-100, 100)]) for _ in range(n_en))
     if indirect:
         ndet = rng.choice([2, 3, 5])  # a 1-element array is indistinguishable from a scalar in the file
         efix = [[rng.uniform(0.1, 50) for _ in range(ndet)], rng.choice(['meV', 'eV'])]
+        if per_detector_en:
+            en = [sorted(rng.uniform(-100, 100) for _ in range(max(n_en, 2))) for _ in range(ndet)]
     else:
         efix = [rng.choice([1.5, 0.16, rng.uniform(0.1, 500)]), rng.choice(['meV', 'meV', 'eV', 'ueV'])]
     return {
@@ -222,7 +224,7 @@ def rand_dnd(rng, shape=None):
     return {
         'shape': list(shape),
         'axes_title': rand_ascii(rng, rand_len(rng, 90)),
-        'label': [rand_ascii(rng, rng.choice([1, 2, 5, 1 + rand_len(rng, 20)])) for _ in range(4)],
+        'label': [rand_ascii(rng, rng.choice([0, 1, 2, 5, 1 + rand_len(rng, 20)])) for _ in range(4)],
         'img_scales': four(lambda i: [rng.choice([1.0, 0.5, rng.uniform(0.01, 10)]), qunit(i)]),
         'img_range': four(lambda i: [sorted([rng.uniform(-10, 0), rng.uniform(0, 10)]), qunit(i)]),
         'single_bin': [bool(rng.randrange(2)) for _ in range(4)],
@@ -230,7 +232,7 @@ def rand_dnd(rng, shape=None):
         'offset': four(lambda i: [rng.choice([0.0, 0.5, rng.uniform(-3, 3)]), qunit(i)]),
         'changes_aspect_ratio': bool(rng.randrange(2)),
         'proj_title': rand_ascii(rng, rand_len(rng, 90)),
-        'proj_label': [rand_ascii(rng, rng.choice([1, 2, 5, 1 + rand_len(rng, 20)])) for _ in range(4)],
+        'proj_label': [rand_ascii(rng, rng.choice([0, 1, 2, 5, 1 + rand_len(rng, 20)])) for _ in range(4)],
         'proj_alatt': sample['alatt'], 'proj_angdeg': sample['angdeg'],
         'proj_offset': four(lambda i: [rng.choice([0.0, 0.5, rng.uniform(-3, 3)]), qunit(i)]),
         'proj_u': [[rng.choice([1.0, 0.0, rng.uniform(-2, 2)]) for _ in range(3)], rng.choice(il)],
@@ -240,13 +242,18 @@ def rand_dnd(rng, shape=None):
     }
 
 
-def rand_pix_recipe(rng, npix, nruns, simple: bool = False):
+FRACTIONAL_UNITS = ('1/nm', '1/um', 'ueV')   # factor to the row unit is not an integer
+
+
+def rand_pix_recipe(rng, npix, nruns, simple: bool = False, intconv: bool = False):
     """Recipe for the 9 rows: per row a value kind, an input unit and a dtype.
 
     kinds: 'grid'  pairwise distinct dyadic values, exactly representable in float32
            'f64'   arbitrary finite doubles (rounding to float32 happens)
            'f32'   float32-representable values
            'wide'  doubles over the whole float32 exponent range incl. subnormal results
+           'boundary'  doubles whose conversion lies on / next to a midpoint between two float32 values
+                       (exact ties for same-unit rows: round-half-even; guard band otherwise)
            'int'   small integers (index rows)"""
     seed = rng.randrange(2**31)
     units, kinds, dtypes = [], [], []
@@ -260,7 +267,7 @@ def rand_pix_recipe(rng, npix, nruns, simple: bool = False):
             kinds.append('grid')
             dtypes.append('float64')
         else:
-            kinds.append(rng.choice(['grid', 'f64', 'f64', 'f32', 'wide']))
+            kinds.append(rng.choice(['grid', 'f64', 'f64', 'f32', 'wide', 'boundary']))
             dtypes.append('float64')
         if r < 3:
             units.append('1/angstrom' if simple or rng.random() < 0.5 else rng.choice(list(INV_LENGTH)))
@@ -270,10 +277,15 @@ def rand_pix_recipe(rng, npix, nruns, simple: bool = False):
             units.append('count' if simple or rng.random() < 0.6 else rng.choice(list(COUNT)))
         else:
             units.append(None)  # 'error' = variances of the signal: unit is the signal's, squared
-    kinds[8] = kinds[7] if kinds[7] != 'wide' else 'f64'
+    kinds[8] = kinds[7] if kinds[7] not in ('wide', 'boundary') else 'f64'
     if not simple and rng.random() < 0.25 and units[7] == 'count':
         dtypes[7] = dtypes[8] = 'float32'  # same unit: no conversion, float32 passes through
         kinds[7] = kinds[8] = 'f32'
+    if intconv:
+        # integer-typed momentum / energy rows given in a unit that needs conversion
+        for r in rng.sample(range(4), rng.choice([1, 2])):
+            kinds[r], dtypes[r] = 'intval', 'int64'
+            units[r] = rng.choice(['1/nm', '1/um', '10/angstrom', '1/fm'] if r < 3 else ['ueV', 'eV'])
     return {'seed': seed, 'units': units, 'kinds': kinds, 'dtypes': dtypes}
 
 
@@ -291,6 +303,9 @@ def make_rows(recipe, npix: int, nruns: int):
                 v = g.integers(0, 2000 if r == 5 else 60, npix)
             rows.append(v.astype(recipe['dtypes'][r]))
             continue
+        if k == 'intval':
+            rows.append(g.integers(-5000, 5000, npix).astype(recipe['dtypes'][r]))
+            continue
         if k == 'grid':
             # (9 p + r + 1) / 8 : < 2^24 for p <= 1e5  => exact in float32, all distinct
             v = (idx * 9 + r + 1) / 8.0
@@ -302,6 +317,12 @@ def make_rows(recipe, npix: int, nruns: int):
             v = g.uniform(1, 10, npix) * 10.0 ** g.integers(-44, 36, npix) * g.choice([-1.0, 1.0], npix)
             if npix > 3:
                 v[:3] = [0.0, -0.0, 1e-46]
+        elif k == 'boundary':
+            c = (g.standard_normal(npix) * 10.0 ** g.integers(-3, 4, npix)).astype(np.float32)
+            mid = (c.astype(np.float64) + np.nextafter(c, np.float32(np.inf)).astype(np.float64)) / 2.0
+            v = mid / float(row_factor(recipe, r))
+            v[::3] = np.nextafter(v[::3], np.inf)      # a third one ulp(f64) above, a third below
+            v[1::3] = np.nextafter(v[1::3], -np.inf)
         else:
             raise ValueError(k)
         if r in (7, 8) and k != 'wide':
@@ -337,7 +358,7 @@ def expected_pix(recipe, rows):
     return exp, alt, amb
 
 
-def random_config(rng, *, thorough: bool, small: bool = False, force=None):
+def random_config(rng, *, thorough: bool, small: bool = False, force=None, intconv: bool = False):
     """A random build configuration inside the quantifier of C12/C13."""
     k = rng.randrange(0, 6)
     calls = rng.sample(ITEMS, k)
@@ -360,6 +381,7 @@ def random_config(rng, *, thorough: bool, small: bool = False, force=None):
             chunk = max(chunk, npix // 3000 + 1)   # keep the number of write calls bounded
     nruns = rng.choice([1, 1, 2, 3, 5, 20, rng.randrange(1, 21)])
     indirect = rng.random() < 0.35
+    per_detector_en = indirect and rng.random() < 0.4
     where = rng.choice(['bytesio', 'bytesio', 'file_str', 'file_path'])
     cfg = {
         'calls': calls, 'npix': npix, 'nruns': nruns, 'chunk': chunk,
@@ -370,9 +392,14 @@ def random_config(rng, *, thorough: bool, small: bool = False, force=None):
                     for _ in range(rng.choice([0, 0, 1, 3]))],
         'n_dims': 4,
         'pix': rand_pix_recipe(rng, npix, nruns),
-        'exps': [rand_experiment(rng, i, indirect) for i in range(nruns)],
+        'exps': [rand_experiment(rng, i, indirect, per_detector_en) for i in range(nruns)],
         'inst': rand_instrument(rng), 'samp': rand_sample(rng), 'dnd': rand_dnd(rng),
     }
+    if intconv and 'pix' in calls:
+        # kept apart from the chunk-loop classes: everything fits into one chunk
+        cfg['npix'] = npix = min(npix, 5000)
+        cfg['chunk'] = rng.choice([None, npix + 1, max(npix, 1)])
+        cfg['pix'] = rand_pix_recipe(rng, npix, nruns, intconv=True)
     if rng.random() < 0.3:  # run ids need not start at 0 nor be consecutive
         base = rng.randrange(0, 50)
         step = rng.choice([1, 2, 7])
@@ -419,7 +446,8 @@ def make_experiment(e):
             if isinstance(efv, list) else sc.scalar(float(efv), unit=efu))
     return SqwIXExperiment(
         run_id=e['run_id'], efix=efix, emode=EnergyMode(e['emode']),
-        en=sc.array(dims=['energy_transfer'], values=np.asarray(e['en'][0], dtype='float64'), unit=e['en'][1]),
+        en=sc.array(dims=['energy_transfer'] if not isinstance(e['en'][0][0], list) else ['detector', 'energy_transfer'],
+                    values=np.asarray(e['en'][0], dtype='float64'), unit=e['en'][1]),
         psi=_q(e['psi']), u=sc.vector(e['u']), v=sc.vector(e['v']), omega=_q(e['omega']), dpsi=_q(e['dpsi']),
         gl=_q(e['gl']), gs=_q(e['gs']), filename=e['filename'], filepath=e['filepath'])
 
@@ -564,6 +592,24 @@ def open_package(b: Built, read_blocks: bool = True):
 
 
 # ---------------------------------------------------------------------------------- C12 event
+def energy_class(cfg) -> str:
+    if 'pix' in cfg['calls'] and any(isinstance(e['en'][0][0], list) for e in cfg['exps']):
+        return 'indirect mode with per-detector energy transfer'
+    return ''
+
+
+def dtype_class(cfg) -> str:
+    """Stable class of a configuration w.r.t. integer-typed rows that need a unit conversion."""
+    if 'pix' not in cfg['calls']:
+        return ''
+    rec = cfg['pix']
+    conv = [r for r in range(4) if rec['dtypes'][r].startswith('int') and row_factor(rec, r) != 1]
+    if not conv:
+        return ''
+    frac = any(row_factor(rec, r).denominator != 1 for r in conv)
+    return ('integer-typed row with fractional unit factor' if frac else 'integer-typed row with integral unit factor')
+
+
 def input_class(cfg) -> str:
     """Stable class of a configuration w.r.t. the pixel chunk loop (the quantifier of C12 names
     chunk sizes smaller / equal / larger than the pixel count and than the row count)."""
@@ -606,9 +652,27 @@ def layout_event(b: Built, dec: D.Decoded, op: dict, tid: int, gid: int):
     else:
         ev['haslog'] = False
         ev['log'] = []
-    # TLC integers are 32 bit
-    big = [e.position + e.size for e in dec.entries] + [len(b.data)]
-    ev['fits32'] = all(0 <= x < 2**31 - 1 for x in big)
+    # TLC integers are 32 bit: the files are < 2^31 bytes, so any larger number found in the table is
+    # wrong anyway; it is clamped (and still fails the tiling clauses)
+    lim = 2**31 - 2
+    ev['fits32'] = len(b.data) < lim
+    for e in ev['bat']:
+        for k in ('pos', 'size', 'locked'):
+            if not 0 <= e[k] <= lim // 2:
+                e[k] = lim // 2
+    for d in ev['dec']:
+        for k in ('consumed', 'nrows', 'npix'):
+            if not -1 <= d[k] <= lim:
+                d[k] = lim
+        d['shape'] = [min(x, lim) for x in d['shape']]
+    for k in ('batsize', 'batbegin', 'batend'):
+        if not -1 <= ev[k] <= lim:
+            ev[k] = lim
+    for k in ('type', 'ndims'):
+        if not -1 <= ev['hdr'][k] <= lim:
+            ev['hdr'][k] = lim
+        if not -1 <= ev['open'][k] <= lim:
+            ev['open'][k] = lim
     return ev
 
 
@@ -734,9 +798,12 @@ def _exp_flags(get, e, base_deg: bool = False):
     ef = _arr(get('efix'))
     efl = efv if isinstance(efv, list) else [efv]
     fl['efix_ok'] = len(ef) == len(efl) and _all(_num_ok(a, b, ENERGY[efu]) for a, b in zip(ef, efl, strict=True))
-    en = _arr(get('en'))
-    fl['en_ok'] = len(en) == len(e['en'][0]) and _all(
-        _num_ok(a, b, ENERGY[e['en'][1]]) for a, b in zip(en, e['en'][0], strict=True))
+    en = np.asarray(get('en'), dtype=np.float64)          # detector-major: (n_det, n_en) or (n_en,) / (1, n_en)
+    want = np.asarray(e['en'][0], dtype=np.float64)
+    if want.ndim == 1:
+        en = en.reshape(-1) if en.size == want.size and (en.ndim == 1 or 1 in en.shape) else en
+    fl['en_ok'] = en.shape == want.shape and _all(
+        _num_ok(a, b, ENERGY[e['en'][1]]) for a, b in zip(en.reshape(-1), want.reshape(-1), strict=True))
     fl['ang_ok'] = _all(_angle_ok(get(k), e[k]) for k in ('psi', 'omega', 'dpsi', 'gl', 'gs'))
     fl['uv_ok'] = _all(len(_arr(get(k))) == 3 and _all(a == b for a, b in zip(_arr(get(k)), e[k], strict=True))
                        for k in ('u', 'v'))
@@ -766,6 +833,8 @@ def content_events(b: Built, dec: D.Decoded, op: dict, tid: int):
     pk = op['blocks']
     pkerr = op['errors']
 
+    infile = b.path is not None   # names the file gives itself are judged for real files only
+
     def ev(kind, src, **kw):
         d = {'ev': kind, 'src': src, 'tid': tid, 'avail': True}
         d.update(kw)
@@ -788,13 +857,13 @@ def content_events(b: Built, dec: D.Decoded, op: dict, tid: int):
         st = byname[name]['node'].struct()
         ev('main', 'dec', nfiles=_int_or(D.field_num(st, 'nfiles')), nruns=nruns,
            title_ok=_eqstr(D.field_str(st, 'title'), cfg['title']),
-           fn_ok=_eqstr(D.field_str(st, 'full_filename'), b.stored_name),
+           fn_ok=not infile or _eqstr(D.field_str(st, 'full_filename'), b.stored_name),
            ndims=dec.n_dims, ndims_supplied=cfg['n_dims'] if haspix else 0)
 
     def main_pkg():
         m = pk[name]
         ev('main', 'pkg', nfiles=_int_or(m.nfiles), nruns=nruns, title_ok=_eqstr(m.title, cfg['title']),
-           fn_ok=_eqstr(m.full_filename, b.stored_name), ndims=op['ndims'],
+           fn_ok=not infile or _eqstr(m.full_filename, b.stored_name), ndims=op['ndims'],
            ndims_supplied=cfg['n_dims'] if haspix else 0)
 
     if name in byname and byname[name].get('ok'):
@@ -815,7 +884,13 @@ def content_events(b: Built, dec: D.Decoded, op: dict, tid: int):
         if blk is not None and blk.get('ok'):
             runs, namb, total, ids = id_runs(blk['pix'], exp, alt, amb)
             ev('pix', 'dec', n=n, nrows=int(blk['n_rows']), npix=int(blk['n_pixels']), runs=runs, namb=namb,
-               total=total, hasids=ids is not None, ids=ids or [])
+               total=total, hasids=ids is not None, ids=ids or [], present=int(blk['pix'].shape[1]))
+        elif blk is not None and 'pix_partial' in blk:
+            # the block is shorter than declared: judge the pixels that are present
+            runs, namb, total, ids = id_runs(blk['pix_partial'], exp, alt, amb)
+            ev('pix', 'dec', n=n, nrows=int(blk['n_rows']), npix=min(int(blk['n_pixels']), 2**31 - 2), runs=runs,
+               namb=namb, total=total, hasids=ids is not None, ids=ids or [],
+               present=int(blk['pix_partial'].shape[1]))
         else:
             why = 'missing' if blk is None else blk.get('error', '')
             d = {'ev': 'pix', 'src': 'dec', 'tid': tid, 'avail': False, 'why': why[:200], 'n': n}
@@ -827,12 +902,12 @@ def content_events(b: Built, dec: D.Decoded, op: dict, tid: int):
                 arr = np.asarray(pk[name])
                 if arr.ndim != 2:
                     raise ValueError(f'pixel array of rank {arr.ndim}')
-                got = np.ascontiguousarray(arr.T.astype(np.float32, copy=False)) if arr.dtype == np.float32 else None
-                if got is None:
+                if not (arr.dtype.kind == 'f' and arr.dtype.itemsize == 4):   # any byte order
                     raise ValueError(f'pixel array of dtype {arr.dtype}')
+                got = np.ascontiguousarray(arr.T.astype(np.float32))
                 runs, namb, total, ids = id_runs(got, exp, alt, amb)
                 ev('pix', 'pkg', n=n, nrows=int(arr.shape[1]), npix=int(arr.shape[0]), runs=runs, namb=namb,
-                   total=total, hasids=ids is not None, ids=ids or [])
+                   total=total, hasids=ids is not None, ids=ids or [], present=int(arr.shape[0]))
             guarded('pix', 'pkg', pix_pkg)
         else:
             unavailable('pix', 'pkg', pkerr.get(name, 'missing'))
@@ -844,7 +919,7 @@ def content_events(b: Built, dec: D.Decoded, op: dict, tid: int):
         raws = [np.asarray(r, dtype=np.float64) for r in b.rows]
 
         def meta_common(src, npix_field, rng_arr, fn):
-            d = ev('pixmeta', src, n=n, npix=_int_or(npix_field), fn_ok=_eqstr(fn, b.stored_name),
+            d = ev('pixmeta', src, n=n, npix=_int_or(npix_field), fn_ok=not infile or _eqstr(fn, b.stored_name),
                    shape_ok=tuple(rng_arr.shape) == (2, 9))
             if n == 0 or not d['shape_ok']:
                 d.update(minrank=[], maxrank=[], hi=[], ranks=[])
@@ -904,7 +979,13 @@ def content_events(b: Built, dec: D.Decoded, op: dict, tid: int):
             for st, e in zip(sts, cfg['exps'], strict=False):
                 def get(k, st=st):
                     nd = st[k]
-                    return nd.value if nd.ty == 'char' else (nd.scalar() if k in ('psi', 'omega', 'dpsi', 'gl', 'gs') else nd.value)
+                    if nd.ty == 'char':
+                        return nd.value
+                    if k in ('psi', 'omega', 'dpsi', 'gl', 'gs'):
+                        return nd.scalar()
+                    if k == 'en':
+                        return np.asarray(nd.value).T      # file: (n_en, n_det) column-major
+                    return nd.value
                 fl = _exp_flags(get, e)
                 for k in flags:
                     flags[k] = flags[k] and fl[k]
@@ -984,7 +1065,6 @@ def content_events(b: Built, dec: D.Decoded, op: dict, tid: int):
                 flags = {'name_ok': _eqstr(D.field_str(st, 'name'), i['name'])
                          and _eqstr(D.field_str(src, 'name'), i['source_name'])
                          and _eqstr(D.field_str(src, 'target_name'), i['target_name']),
-                         'freq_ok': float(D.field_num(src, 'frequency')) == float(i['frequency'][0]),
                          'obj_serial_ok': _eqstr(D.field_str(st, 'serial_name'), 'IX_null_inst')}
             ev('cont', 'dec', which=which, nruns=want_n, idx=idx, nuniq=len(objs), count=len(idx), allsame=True,
                flags_ok=_all(flags.values()), flags={k: bool(v) for k, v in flags.items()}, dims={})
@@ -1003,8 +1083,7 @@ def content_events(b: Built, dec: D.Decoded, op: dict, tid: int):
                 x = lst[0]
                 i = cfg['inst']
                 flags = {'name_ok': _eqstr(x.name, i['name']) and _eqstr(x.source.name, i['source_name'])
-                         and _eqstr(x.source.target_name, i['target_name']),
-                         'freq_ok': float(x.source.frequency.value) == float(i['frequency'][0])}
+                         and _eqstr(x.source.target_name, i['target_name'])}
                 dims = {'frequency': dim_of(x.source.frequency)}
             ev('cont', 'pkg', which=which, nruns=want_n, idx=[1] * len(lst), nuniq=1 if len(lst) else 0,
                count=len(lst), allsame=bool(same), flags_ok=_all(flags.values()),
@@ -1055,7 +1134,8 @@ def content_events(b: Built, dec: D.Decoded, op: dict, tid: int):
                 'single_bin': [bool(x) for x in _arr(ax['single_bin_defines_iax'].value)] == d['single_bin'],
                 'axes_offset': four_ok(ax['offset'].value, d['offset']),
                 'aspect': bool(_arr(ax['changes_aspect_ratio'].value)[0]) == d['changes_aspect_ratio'],
-                'axes_file': _eqstr(D.field_str(ax, 'filename'), b.filename) and _eqstr(D.field_str(ax, 'filepath'), b.filepath),
+                'axes_file': not infile or (_eqstr(D.field_str(ax, 'filename'), b.filename)
+                                            and _eqstr(D.field_str(ax, 'filepath'), b.filepath)),
                 'proj_title': _eqstr(D.field_str(pr, 'title'), d['proj_title']),
                 'proj_label': D.field_strs(pr, 'label') == d['proj_label'],
                 'proj_alatt': vec_ok(pr['alatt'].value, d['proj_alatt'], LENGTH_A),
@@ -1087,7 +1167,7 @@ def content_events(b: Built, dec: D.Decoded, op: dict, tid: int):
                 'single_bin': [bool(x) for x in ax.single_bin_defines_iax.values] == d['single_bin'],
                 'axes_offset': four_ok(vals(ax.offset), d['offset']),
                 'aspect': bool(ax.changes_aspect_ratio) == d['changes_aspect_ratio'],
-                'axes_file': _eqstr(ax.filename, b.filename) and _eqstr(ax.filepath, b.filepath),
+                'axes_file': not infile or (_eqstr(ax.filename, b.filename) and _eqstr(ax.filepath, b.filepath)),
                 'proj_title': _eqstr(pr.title, d['proj_title']),
                 'proj_label': list(pr.label) == d['proj_label'],
                 'proj_alatt': vec_ok(pr.lattice_spacing.values, d['proj_alatt'], LENGTH_A),
